@@ -46,6 +46,44 @@ INFO = {
  "C19-2": ("get() clears with the original (wildcard) arguments instead of the resolved pair", "WRTE, CLSE, WRTE parked on one pair and the CLSE retrieved through a wildcard get"),
  "C20-1": ("_timeout_ms = int(timeout_s) * 1000", "fractional timeouts: 0.5 s becomes 0 ms (= no timeout), 1.5 s becomes 1000 ms"),
  "C20-2": ("close(): `self._transport = None` moved from `finally` into the `try` body", "a backend error in releaseInterface (also after a failed connect): the transport stays usable after close()"),
+
+ # ---- round 2 (three per property; the agents were told which ideas had been used before)
+ "C01-3": ("read(): the store is looked at once per loop pass, before taking the transport lock (re-check under the lock removed)", "two threads: the owner waits for the lock while another thread parks its WRTE; the owner then reads its CLSE first: output truncated"),
+ "C01-4": ("_open hands the local id back (decrements the counter) when the OPEN times out", "a timed-out OPEN followed by another command while the device answers the first OPEN late: both streams share an id"),
+ "C01-5": ("on a matching CLSE read() also clears the store entry (local, remote) — the store is keyed (remote, local)", "two interleaved streams with crossed ids (1,2)/(2,1) and a parked WRTE of the second when the first one's CLSE is read"),
+ "C03-3": ("checksum verified only if the DEVICE's announced protocol version is below 0x01000001", "a device that announces version 0x01000001 in its CNXN, then any payload corruption"),
+ "C03-4": ("bytes of a timed-out read are kept in _pending_bytes to resume; connect() never clears them", "a read that times out inside a header/payload, then connect() without close(): stale bytes in front of the new CNXN"),
+ "C03-5": ("an extra bulk_read(24) 'to consume the USB zero-length packet' after payloads that are a multiple of 512 bytes", "a payload of 512/1024/4096 bytes directly followed by the next packet"),
+ "C04-3": ("_clse loops over [CLSE, WRTE] and acknowledges WRTEs that were in flight", "a pull aborted by a local write error while the device's next WRTE is already on the wire: OKAY after the host's CLSE"),
+ "C04-4": ("the OKAY for a shell WRTE is sent after the `yield`", "a streaming_shell generator that is abandoned: the last delivered WRTE is never acknowledged"),
+ "C04-5": ("timeout_s check also runs after the device's CLSE was answered + CLSE sent on AdbTimeoutError in _streaming_command", "shell(timeout_s=T) whose CLSE arrives later than T: two host CLSEs"),
+ "C05-3": ("close() clears the flag after io.close(); connect() calls self.close() instead of clearing the flag", "a reconnect during which transport.close() raises: connect() raises, available stays True"),
+ "C05-4": ("the TOKEN check is hoisted out of the key loop", ">= 2 keys and a second challenge whose arg0 is not TOKEN: it is signed instead of InvalidResponseError"),
+ "C05-5": ("`if auth_timeout_s:` — None and 0 are ignored", "the public-key path with auth_timeout_s None or 0"),
+ "C06-3": ("read(): single store check per pass, outside the transport lock", "the owner waits at the lock while the holder parks its packet"),
+ "C06-4": ("one FileSync send buffer cached per device", "two FileSync operations at once, one buffering a request between the other's send and flush (window without lock or transport call)"),
+ "C06-5": ("close() takes the store lock before the transport lock", "a reader holding the transport lock that must take the store lock while close() waits: deadlock"),
+ "C07-3": ("SEND length counts characters (str passed on, size computed before encoding)", "a non-ASCII device path"),
+ "C07-4": ("one cached FileSync transaction object per device whose reset() keeps send_idx", "a push aborted by a transport failure, then another push on the same object: stale records sent first"),
+ "C07-5": ("with a callback the read loop stops at the st_size taken before the transfer", "a source whose st_size is smaller than what read() yields (procfs, FIFO, growing file)"),
+ "C08-3": ("FileSync transaction objects cached per device; reset() keeps recv_buffer", "an earlier pull that stopped in the middle of a record (or two concurrent pulls): stale bytes parsed first"),
+ "C08-4": ("early WRTEs during the flush are stashed with `early = data` instead of accumulating", "two or more reply WRTEs before the OKAY of the RECV request"),
+ "C08-5": ("zero-size records lose their payload object (None)", "a DATA record of size 0: TypeError in stream.write"),
+ "C10-3": ("push aborts early with PushFailedError(recv_buffer[8:]) as soon as anything is buffered", "an early FAIL split over several WRTEs: truncated reason"),
+ "C10-4": ("early FAIL detected in _filesync_flush raises AdbCommandFailureException, translated only around DATA sends", "a FAIL that overtakes the OKAY of the last WRTE: wrong exception class from push"),
+ "C10-5": ("exception constructors apply `message %= args`", "a reason containing '%': TypeError instead of the documented exception"),
+ "C11-3": ("_read_expected_packet_from_device compares a clamped (never negative) time-left value with < 0", "connect() against a device that keeps sending packets other than the awaited one"),
+ "C11-4": ("_clse loops over [CLSE, WRTE] with no overall deadline, acknowledging each WRTE", "a device that keeps writing on the stream while the host waits for the final CLSE"),
+ "C11-5": ("_read_bytes_from_device checks the clock only when a read came back empty", "bytes trickling with gaps shorter than the transport timeout for longer than read_timeout_s"),
+ "C12-3": ("pooled _FileSyncTransactionInfo whose reset() keeps recv_buffer", "a transport failure while the second part of a straddling sync record is fetched; garbage in the next session"),
+ "C12-4": ("close() returns early when not available; connect() relies on it; io.connect() no longer closes the transport", "a failure inside connect() after transport.connect() succeeded: the next connect opens a second connection"),
+ "C12-5": ("_send() calls self.close() when the payload write fails (re-acquiring the non-reentrant transport lock)", "a failure exactly on the payload write of a message with data: self-deadlock, lock held"),
+ "C13-3": ("push checks availability per file; mkdir goes through the private _service", "push of a DIRECTORY on an unconnected device: OPEN shell:mkdir is sent"),
+ "C13-4": ("close(): `try: io.close() finally: self._available = False`", "anything that looks at `available` while close() is still closing the transport"),
+ "C13-5": ("sync streaming_shell checks eagerly and returns the inner generator", "generator created while connected, first next() after close(): OPEN sent while unavailable"),
+ "C16-4": ("async only: default mtime resolved when push() is entered", "mtime=0 and the integer clock changing during the call (slow link, several files)"),
+ "C16-5": ("async only: close() clears the flag after closing", "transport.close() raising, then further operations"),
+ "C16-6": ("async TCP only: EOF reported as ConnectionResetError", "the peer closing the connection while the host still reads"),
 }
 HISTORY = {
  "C05-2": "device model had no re-challenge after the public key -> AuthPlan.rechallenge_after_pubkey, C05 grid dimension",
@@ -63,6 +101,32 @@ HISTORY = {
  "C09-2": "the simulator never replied before the OKAY of the request -> `early_reply` dimension (legal per protocol.txt) in all scenario-based checks",
  "C17-1": "random keys hit the case 1 in 256 -> keys recombined from fresh primes with a zero top byte in rr / n0inv",
  "C17-2": "random tokens hit the case 1 in 256 -> tokens whose signature starts with a zero byte, found by CRT exponentiation",
+
+ "C01-3": "a concurrency defect: not reachable by C01's single-actor runs, caught by C06 (no change needed)",
+ "C01-4": "C01 had no command that times out and is answered late -> kind `late` (muted OPEN, then the answer), C14 got timed-out opens in its sequential series",
+ "C01-5": "no two streams were ever consumed alternately by one actor with crossed ids -> kind `interleave`, remote-id regime `swap`",
+ "C03-3": "the simulator always announced version 0x01000000 -> device version as a common dimension",
+ "C03-4": "state surviving a failed operation belongs to C12, which catches it (C03 unchanged)",
+ "C03-5": "payload lengths that are multiples of 512 were rare -> partition style / split mode `blocks`",
+ "C04-3": "the lazy simulator never had a WRTE in flight when the host closed -> `eager` device mode as a common dimension; pulls into a destination whose write() fails",
+ "C04-4": "acks were checked only for calls that close their stream -> delivered-vs-acknowledged rule for abandoned generators",
+ "C04-5": "no whole-command limit ever expired in C04 -> slow link (virtual cost per call) with timeout_s",
+ "C05-3": "no transport failure during connect -> faults in transport.close()/connect() on the second connect",
+ "C05-5": "auth_timeout_s was never 0 or None -> added (with a device that answers)",
+ "C07-4": "state surviving an interrupted push belongs to C12, which catches it",
+ "C07-5": "sources were regular files and BytesIO -> /proc/version as a source (st_size 0)",
+ "C08-3": "needs an earlier failed pull or concurrency: caught by C12 and C06",
+ "C08-5": "the simulator never sent empty DATA records -> record-size style `zeros`",
+ "C10-5": "no reason contained printf/format characters -> added",
+ "C11-4": "a WRTE flood counted as progress everywhere -> `data-flood` at OKAY- and CLSE-await points (this also exposed F7 in the repository's own fix)",
+ "C12-3": "C12's scenario used record-aligned WRTEs -> straddling splits",
+ "C12-4": "the transport did not know whether it was open -> `connection-leaked` when connect() is called on an open transport",
+ "C13-3": "push was only tried with a file -> symbol `push-dir`",
+ "C13-4": "`available` was sampled during connect() only -> sampled at the transport's close() as well",
+ "C13-5": "a generator was always created and consumed in one step -> symbols `stream-create` / `stream-next`, directed sequences",
+ "C16-4": "mtime 0 was normalised away in paired runs -> perturbation `slowpush`",
+ "C16-5": "no failing close() in paired runs -> perturbation `closefault`",
+ "C16-6": "the TCP comparison ended before the peer closed -> reads after EOF compared",
 }
 rows = []
 for sid in sorted(INFO):
